@@ -53,13 +53,39 @@ Definition outside_chk (k : tcase) : bool :=
       && list_eqb zs_eqb t1 [] && list_eqb zs_eqb t2 [] && list_eqb zs_eqb t3 []
   | _ => false
   end.
+(** the tag next to the outer box but outside it: to its left on an interior row, above it, below it (one blank cell away): three fragments
+    again, nothing named, the tag shown as text *)
+Definition around_cells (k : tcase) (where_ : nat) : list (cell * Z) :=
+  let '(ix, iy) := inner_at k in
+  let W := Z.of_nat (wo k) + 2 in let H := Z.of_nat (ho k) + 2 in
+  (* everything moved 5 columns right and 2 rows down to make room *)
+  let moved := map (shift_cc 5 2) (box_cells (so k) (wo k) (ho k) ++ map (shift_cc ix iy) (box_cells (si k) (wi k) (hi k))) in
+  sort_cells (moved ++ match where_ with
+                       | O => tag_cells 0 (2 + iy + 1)              (* left of the outer box, on a row of the inner box *)
+                       | S O => tag_cells (5 + ix + 1) 0              (* above, within the columns of the inner box *)
+                       | _ => tag_cells (5 + ix + 1) (2 + H + 1)     (* below *)
+                       end).
+Definition around_chk (k : tcase) : bool :=
+  let '(ix, iy) := inner_at k in
+  forallb (fun w =>
+    match tagged_fragments (around_cells k w) with
+    | Ok (l, O) =>
+        Nat.eqb (List.length l) 3
+        && Nat.eqb (List.length (filter (fun p => is_tag_text (fst p)) l)) 1
+        && Nat.eqb (List.length (filter (fun p => match fst p with FRect _ => true | _ => false end) l)) 2
+        && forallb (fun p => list_eqb zs_eqb (snd p) []) l
+    | _ => false
+    end) [0; 1; 2]%nat.
 Definition sharp := BS 43 43 43 43 45 124 None false false.
 Definition rounded := BS 46 46 39 39 45 124 (Some 20) false false.
 Definition tcases : list tcase :=
   flat_map (fun so => flat_map (fun si => flat_map (fun wi => flat_map (fun hi => flat_map (fun ox => flat_map (fun oy =>
     flat_map (fun tx => map (fun ty => TC so si wi hi ox oy tx ty) (seq 0 hi)) (seq 0 (wi - 2)))
     [0; 1]%nat) [1; 2]%nat) [1; 2]%nat) [3; 4]%nat) [sharp; rounded]) [sharp; rounded].
-Lemma tag_sweep_ok : forallb (fun k => inside_chk k && outside_chk k) tcases = true.
+Lemma tag_sweep_ok : forallb (fun k => inside_chk k && outside_chk k && around_chk k) tcases = true.
 Proof. vm_cast_no_check (eq_refl true). Qed.
-Theorem nested_tag k : In k tcases -> inside_chk k = true /\ outside_chk k = true.
-Proof. intro H. apply andb_prop. exact (proj1 (forallb_forall _ _) tag_sweep_ok k H). Qed.
+Theorem nested_tag k : In k tcases -> inside_chk k = true /\ outside_chk k = true /\ around_chk k = true.
+Proof.
+  intro H. pose proof (proj1 (forallb_forall _ _) tag_sweep_ok k H) as T. cbv beta in T.
+  apply andb_prop in T. destruct T as [T A]. apply andb_prop in T. destruct T as [I O]. repeat split; assumption.
+Qed.
